@@ -9,10 +9,11 @@ _registered = False
 _TAPE = {"tape": [0], "pos": 0, "moves": []}
 
 
-def set_tape(tape):
+def set_tape(tape, eager=None):
     _TAPE["tape"] = list(tape) or [0]
     _TAPE["pos"] = 0
     _TAPE["moves"] = []
+    _TAPE["eager"] = eager
 
 
 def moves():
@@ -44,6 +45,35 @@ def ensure_registered():
         from eudoxia.executor.assignment import Assignment, Suspend
         from eudoxia.workload.runtime_status import ASSIGNABLE_STATES, OperatorState
         s.known.extend(pipelines)
+        if _TAPE.get("eager"):
+            # eager policy: suspend every suspendable container, hand every ready operator (with its descendants in
+            # listing order) to a new one-CPU container of a fixed size as long as the pool has room
+            sus, asg = [], []
+            ram = _TAPE["eager"]
+            for p_ in s.executor.pools:
+                for c in p_.active_containers:
+                    if c.can_suspend_container() and _next(3) != 0:
+                        sus.append(Suspend(c.container_id, p_.pool_id))
+            free = [[p_.avail_cpu_pool, p_.avail_ram_pool] for p_ in s.executor.pools]
+            for pl in s.known:
+                rs = pl.runtime_status()
+                ready = rs.get_ops(ASSIGNABLE_STATES, require_parents_complete=True)
+                if not ready:
+                    continue
+                chosen, have = [], set()
+                for op in rs.get_ops(ASSIGNABLE_STATES):
+                    if all((q in have) or rs.operator_states[q] == OperatorState.COMPLETED for q in op.parents):
+                        chosen.append(op)
+                        have.add(op)
+                if not s.multi:
+                    chosen = chosen[:1]
+                for k, (fc, fr) in enumerate(free):
+                    if fc >= 1 and fr >= ram:
+                        asg.append(Assignment(ops=chosen, cpu=1, ram=ram, priority=pl.priority, pool_id=k, pipeline_id=pl.pipeline_id))
+                        free[k][0] -= 1
+                        free[k][1] -= ram
+                        break
+            return sus, asg
         sus, asg = [], []
         sus_pipeline = None
         npools = s.executor.num_pools
